@@ -534,7 +534,7 @@ Walk:
 				if !lazy {
 					copyWithResize(c.tsrParams, c.params)
 				}
-			} else if charsMatched == len(path) && charsMatchedInNodeFound == len(current.key) {
+			} else if !strings.HasSuffix(path, "/") && charsMatched == len(path) && charsMatchedInNodeFound == len(current.key) {
 				// Tsr recommendation: add an extra trailing slash. The path ends exactly on this intermediary node and
 				// one of its children is the leaf "/" (e.g. /foo/ with /foo/ and /foobar registered).
 				if idx := linearSearch(current.childKeys, slashDelim); idx >= 0 && len(current.children[idx].key) == 1 && current.children[idx].isLeaf() {
